@@ -2,6 +2,7 @@ package main
 
 import (
 	"fmt"
+	"math"
 
 	"github.com/bradenaw/juniper/container/deque"
 	"github.com/bradenaw/juniper/container/xheap"
@@ -295,6 +296,14 @@ func (dv *dequeDrv) enumOps(y map[int]bool) []op {
 		add(op{label: lab, desc: fmt.Sprintf("Set(%d, %d)", i, t), mutating: true,
 			do:    func() { dv.tok = t; d.Set(i, t) },
 			after: func() { dv.m[i] = t }})
+	}
+
+	// refused calls: out-of-range Item and Set panic and change nothing
+	for _, i := range []int{-1, n, n + 1, math.MaxInt, math.MinInt} {
+		i := i
+		add(op{label: "Item(out of range: panics)", desc: fmt.Sprintf("Item(%s)", idxName(i)), wantPanic: true, do: func() { _ = d.Item(i) }})
+		t := dv.tok + 3 + n
+		add(op{label: "Set(out of range: panics)", desc: fmt.Sprintf("Set(%s, %d)", idxName(i), t), mutating: true, wantPanic: true, do: func() { d.Set(i, t) }})
 	}
 
 	// Grow
@@ -738,4 +747,14 @@ func addMissing(base, more []int) []int {
 		}
 	}
 	return base
+}
+
+func idxName(i int) string {
+	switch i {
+	case math.MaxInt:
+		return "MaxInt"
+	case math.MinInt:
+		return "MinInt"
+	}
+	return fmt.Sprint(i)
 }
